@@ -50,6 +50,8 @@ var FrameDecoderFunc func(bitstreamData, alphaData []byte) (*image.NRGBA, error)
 // FrameEncoderFunc encodes an image to a raw VP8/VP8L bitstream.
 // lossless controls whether VP8L (true) or VP8 (false) is used.
 // quality controls encoding quality (0-100).
+// A VP8 frame that has transparency is returned as mux frame data: its ALPH
+// chunk (header, payload, padding) followed by the VP8 bitstream.
 // It will be set by the codec package once available.
 var FrameEncoderFunc func(img image.Image, lossless bool, quality int) ([]byte, error)
 
@@ -854,6 +856,37 @@ func isLossyBlendingPossible(src, dst *image.NRGBA, rect image.Rectangle, qualit
 	return true
 }
 
+// flattenSimilarPixels makes every non-opaque pixel of subImg (the sub-frame
+// extracted from the current canvas at rect) that is similar to the previous
+// canvas fully transparent. It is the lossy counterpart of
+// increaseTransparency and must be applied to every lossy sub-frame that is
+// emitted with BlendAlpha: isLossyBlendingPossible accepts non-opaque pixels
+// only when they are similar to (hence have the same alpha as) the previous
+// canvas, and such a pixel reproduces the target alpha only if the previous
+// canvas shows through; stored as-is it would be composited onto itself.
+//
+// The C libwebp FlattenSimilarBlocks serves the same purpose but only clears
+// whole 8x8 blocks of opaque pixels, which leaves the alpha of carried-over
+// translucent pixels inexact; opaque pixels need no such treatment here.
+//
+// Parameters:
+//   - src: the previous canvas (carry-over from previous frame)
+//   - subImg: copy of the current canvas restricted to rect, origin (0,0)
+//   - rect: the sub-frame rectangle being encoded
+//   - quality: encoding quality (0-100) used to determine the similarity threshold
+func flattenSimilarPixels(src, subImg *image.NRGBA, rect image.Rectangle, quality int) {
+	maxDiff := qualityToMaxDiff(quality)
+	for y := rect.Min.Y; y < rect.Max.Y; y++ {
+		for x := rect.Min.X; x < rect.Max.X; x++ {
+			sx, sy := x-rect.Min.X, y-rect.Min.Y
+			dstPx := subImg.NRGBAAt(sx, sy)
+			if dstPx.A != 0xFF && pixelsAreSimilar(src.NRGBAAt(x, y), dstPx, maxDiff) {
+				subImg.SetNRGBA(sx, sy, color.NRGBA{})
+			}
+		}
+	}
+}
+
 // encodeSubFrame detects the bounding rectangle of changed pixels between the
 // previous canvas and the current canvas, encodes only that sub-rectangle, and
 // emits it to the muxer with the appropriate offset. When the changed area
@@ -896,8 +929,12 @@ func (e *AnimEncoder) encodeSubFrame(currCanvas *image.NRGBA, durMS int) error {
 	}
 
 	subImgNone := extractSubImage(currCanvas, rectNone)
-	if e.opts.Lossless && blendNone == BlendAlpha {
-		increaseTransparency(e.prevCanvas, subImgNone, rectNone)
+	if blendNone == BlendAlpha {
+		if e.opts.Lossless {
+			increaseTransparency(e.prevCanvas, subImgNone, rectNone)
+		} else {
+			flattenSimilarPixels(e.prevCanvas, subImgNone, rectNone, e.opts.Quality)
+		}
 	}
 	bsNone, err := e.encodeFrame(subImgNone, e.opts.Lossless, e.opts.Quality)
 	if err != nil {
@@ -931,8 +968,12 @@ func (e *AnimEncoder) encodeSubFrame(currCanvas *image.NRGBA, durMS int) error {
 	}
 
 	subImgBG := extractSubImage(currCanvas, rectBG)
-	if e.opts.Lossless && blendBG == BlendAlpha {
-		increaseTransparency(prevDisposedCanvas, subImgBG, rectBG)
+	if blendBG == BlendAlpha {
+		if e.opts.Lossless {
+			increaseTransparency(prevDisposedCanvas, subImgBG, rectBG)
+		} else {
+			flattenSimilarPixels(prevDisposedCanvas, subImgBG, rectBG, e.opts.Quality)
+		}
 	}
 	bsBG, err = e.encodeFrame(subImgBG, e.opts.Lossless, e.opts.Quality)
 	if err != nil {
